@@ -192,8 +192,13 @@ class MonitoredList(MonitoredContainer, list):
         return list
 
     def extend(self, items):
-        for item in items:
+        # take the items first: the argument can be this list itself (or a view of it), which grows while items are added
+        for item in list(items):
             self._add_item(item)
+
+    def __iadd__(self, items):
+        self.extend(items)
+        return self
 
     def append(self, item):
         self._add_item(item)
@@ -242,9 +247,14 @@ class MonitoredSet(MonitoredContainer, set):
     def add(self, value):
         self._add_item(value)
 
-    def update(self, values):
-        for value in values:
-            self._add_item(value)
+    def update(self, *iterables):
+        for values in iterables:
+            for value in list(values):
+                self._add_item(value)
+
+    def __ior__(self, values):
+        self.update(values)
+        return self
 
     def _add_item(
         self, value, inferred: bool = False, add_relation_to_the_graph: bool = True
